@@ -213,6 +213,244 @@ theorem link_makeringlattice (ir : RingIR) (hok : ringOk ir = true) (k : ℕ) (d
         · have hp' : isPermOfRange (List.take (nonzeroCells st.dCIJ).length ds) (nonzeroCells st.dCIJ).length = false := by simpa using hp
           simp only [hp', Bool.not_false, if_true]
 
+/-! ## `makerandCIJdegreesfixed` -/
+
+variable {k : ℕ}
+
+/-- the interpreter's loop state holds the model's -/
+def embDf (e0 : Vector (Fin n) k) (st : DfSt n k) (t : Option (String × Fin n)) : ESt n k := { C := st.C, e0 := e0, e1 := st.e1, t := t }
+
+theorem drawSw_eq (tried : List ℕ) : ∀ ds : List ℕ, drawSw k tried ds = drawUntried k tried ds := by
+  intro ds
+  induction ds with
+  | nil => rfl
+  | cons x ds ih =>
+    simp only [drawSw, drawUntried]
+    by_cases h : x < k
+    · simp only [h, dite_true]; split
+      · exact ih
+      · rfl
+    · simp only [h, dite_false]
+
+theorem readCell_free1 (e0 : Vector (Fin n) k) (st : DfSt n k) (t : Option (String × Fin n)) (i s : Fin k) :
+    readCell refDf (embDf e0 st t) i s refDf.free1 = some (st.C.get e0[i] st.e1[s]) := by
+  simp [readCell, readE, idxOf, refDf, eI, eSs, embDf]
+
+theorem readCell_free2 (e0 : Vector (Fin n) k) (st : DfSt n k) (t : Option (String × Fin n)) (i s : Fin k) :
+    readCell refDf (embDf e0 st t) i s refDf.free2 = some (st.C.get e0[s] st.e1[i]) := by
+  simp [readCell, readE, idxOf, refDf, eS, eIs, embDf]
+
+theorem readCell_occ (e0 : Vector (Fin n) k) (st : DfSt n k) (t : Option (String × Fin n)) (i s : Fin k) :
+    readCell refDf (embDf e0 st t) i s refDf.occupied = some (st.C.get e0[i] st.e1[i]) := by
+  simp [readCell, readE, idxOf, refDf, eI, eIs, embDf]
+
+theorem accept_spec (e0 : Vector (Fin n) k) (st : DfSt n k) (t : Option (String × Fin n)) (i s : Fin k) :
+    (match execEs refDf i s refDf.accept (embDf e0 st t) with
+      | some st1 => (match (if s.val < i.val then execEs refDf i s refDf.ltBody st1 else some st1) with
+        | some st2 => execEs refDf i s refDf.swap st2
+        | none => none)
+      | none => none) = some (embDf e0 (applySwitch e0 st i s) (some ("t", st.e1[i]))) := by
+  by_cases hlt : s.val < i.val
+  · simp [execEs, execE, readE, writeE, idxOf, refDf, eI, eIs, eS, eSs, embDf, applySwitch, hlt]
+  · simp [execEs, execE, readE, writeE, idxOf, refDf, eI, eIs, eS, eSs, embDf, applySwitch, hlt]
+
+theorem bool_free (x y : ℤ) : (!(x != 0 || y != 0)) = (x == 0 && y == 0) := by
+  simp only [bne, Bool.not_or, Bool.not_not]
+
+/-- what the interpreter's result says about the model's: the same error, or states that hold each other -/
+def RelDf (e0 : Vector (Fin n) k) : Except Err (ESt n k × List ℕ) → Except Err (DfSt n k × List ℕ) → Prop
+  | .ok (a, ds), .ok (b, ds') => ds = ds' ∧ ∃ t, a = embDf e0 b t
+  | .error e, .error e' => e = e'
+  | _, _ => False
+
+theorem repair_spec (e0 : Vector (Fin n) k) (st : DfSt n k) (i : Fin k) : ∀ (fuel : ℕ) (t : Option (String × Fin n)) (tried ds : List ℕ),
+    RelDf e0 (repairI refDf (embDf e0 st t) i fuel tried ds) (repair e0 st i fuel tried ds) := by
+  intro fuel
+  induction fuel with
+  | zero => intro t tried ds; simp [repairI, repair, RelDf]
+  | succ f ih =>
+    intro t tried ds
+    simp only [repairI, repair, drawSw_eq]
+    by_cases hk : tried.length = k
+    · simp [hk, RelDf]
+    · simp only [hk, if_false]
+      cases hd : drawUntried k tried ds with
+      | error e => simp [RelDf]
+      | ok r =>
+        obtain ⟨s, ds'⟩ := r
+        simp only [readCell_free1, readCell_free2, bool_free]
+        by_cases hfree : (st.C.get e0[i] st.e1[s] == 0 && st.C.get e0[s] st.e1[i] == 0) = true
+        · have ha := accept_spec e0 st t i s
+          simp only [hfree, if_true]
+          cases hA : execEs refDf i s refDf.accept (embDf e0 st t) with
+          | none => rw [hA] at ha; simp at ha
+          | some st1 =>
+            rw [hA] at ha
+            simp only [] at ha ⊢
+            cases hB : (if s.val < i.val then execEs refDf i s refDf.ltBody st1 else some st1) with
+            | none => rw [hB] at ha; simp at ha
+            | some st2 =>
+              rw [hB] at ha
+              simp only [] at ha ⊢
+              rw [ha]
+              exact ⟨rfl, _, rfl⟩
+        · have hfree' : (st.C.get e0[i] st.e1[s] == 0 && st.C.get e0[s] st.e1[i] == 0) = false := by simpa using hfree
+          simp only [hfree', Bool.false_eq_true, if_false]
+          exact ih t _ _
+
+theorem placeAll_spec (e0 : Vector (Fin n) k) : ∀ (is : List (Fin k)) (st : DfSt n k) (t : Option (String × Fin n)) (ds : List ℕ),
+    RelDf e0 (placeAllI refDf is (embDf e0 st t) ds) (placeAll e0 is st ds) := by
+  intro is
+  induction is with
+  | nil => intro st t ds; exact ⟨rfl, t, rfl⟩
+  | cons i is ih =>
+    intro st t ds
+    have hplace : RelDf e0 (placeI refDf (embDf e0 st t) i ds) (placeEdge e0 st i ds) := by
+      simp only [placeI, placeEdge, readCell_occ]
+      by_cases ho : (st.C.get e0[i] st.e1[i] != 0) = true
+      · simp only [ho, if_true]; exact repair_spec e0 st i _ t [] ds
+      · have ho' : (st.C.get e0[i] st.e1[i] != 0) = false := by simpa using ho
+        simp only [ho', Bool.false_eq_true, if_false]
+        have : execEs refDf i i refDf.elseStores (embDf e0 st t) = some (embDf e0 { st with C := st.C.set e0[i] st.e1[i] 1 } t) := by
+          simp [execEs, execE, readE, idxOf, refDf, eI, eIs, embDf]
+        rw [this]
+        exact ⟨rfl, t, rfl⟩
+    simp only [placeAllI, placeAll]
+    cases hI : placeI refDf (embDf e0 st t) i ds with
+    | error e =>
+      rw [hI] at hplace
+      cases hM : placeEdge e0 st i ds with
+      | error e' => rw [hM] at hplace; simp only [RelDf] at hplace; subst hplace; rfl
+      | ok r => rw [hM] at hplace; exact absurd hplace (by simp [RelDf])
+    | ok r =>
+      rw [hI] at hplace
+      cases hM : placeEdge e0 st i ds with
+      | error e' => rw [hM] at hplace; exact absurd hplace (by simp [RelDf])
+      | ok r' =>
+        rw [hM] at hplace
+        obtain ⟨a, ds1⟩ := r
+        obtain ⟨b, ds2⟩ := r'
+        obtain ⟨hds, t', ha⟩ := hplace
+        subst hds; subst ha
+        exact ih b t' ds1
+
+/-! ### the fill loop -/
+
+/-- an array of length `k`, zero-initialised, after the prefix `S` has been stored (clipped at `k`) -/
+def fillOf {α : Type} (k : ℕ) (z : α) (S : List α) : List α := S.take k ++ List.replicate (k - S.length) z
+
+theorem fillOf_get {α : Type} (k : ℕ) (z : α) (S : List α) (p : ℕ) :
+    (fillOf k z S)[p]? = if p < k then some (S.getD p z) else none := by
+  unfold fillOf
+  by_cases hp : p < k
+  · simp only [hp, if_true]
+    by_cases hs : p < S.length
+    · rw [List.getElem?_append_left (by simp; omega)]
+      simp [hp, hs, List.getD_eq_getElem?_getD]
+    · rw [List.getElem?_append_right (by simp; omega)]
+      simp only [List.length_take, List.getElem?_replicate]
+      have : p - min k S.length < k - S.length := by omega
+      simp [this, List.getD_eq_getElem?_getD, List.getElem?_eq_none (by omega : S.length ≤ p)]
+  · simp only [hp, if_false]
+    apply List.getElem?_eq_none
+    simp; omega
+
+theorem sliceSet_fill {α : Type} (k c : ℕ) (z i : α) (S : List α) :
+    sliceSet (fillOf k z S) S.length (S.length + c) i = fillOf k z (S ++ List.replicate c i) := by
+  apply List.ext_getElem?
+  intro p
+  simp only [sliceSet, List.getElem?_mapIdx, fillOf_get]
+  by_cases hp : p < k
+  · simp only [hp, if_true, Option.map_some]
+    congr 1
+    by_cases h1 : p < S.length
+    · have : ¬ (S.length ≤ p ∧ p < S.length + c) := by omega
+      simp [this, List.getD_eq_getElem?_getD, List.getElem?_append_left h1]
+    · by_cases h2 : p < S.length + c
+      · have : (S.length ≤ p ∧ p < S.length + c) := by omega
+        simp [this, List.getD_eq_getElem?_getD]
+      · have : ¬ (S.length ≤ p ∧ p < S.length + c) := by omega
+        rw [if_neg this, List.getD_eq_getElem?_getD, List.getD_eq_getElem?_getD,
+          List.getElem?_eq_none (by omega : S.length ≤ p), List.getElem?_eq_none (by simp; omega)]
+  · simp [hp]
+
+theorem fill_fold (inv outv : Fin n → ℕ) (z : Fin n) : ∀ (L : List (Fin n)) (S1 S2 : List (Fin n)),
+    L.foldl (fun (acc : List (Fin n) × List (Fin n) × ℕ × ℕ) i =>
+        (sliceSet acc.1 acc.2.2.1 (acc.2.2.1 + inv i) i, sliceSet acc.2.1 acc.2.2.2 (acc.2.2.2 + outv i) i,
+          acc.2.2.1 + inv i, acc.2.2.2 + outv i))
+      (fillOf k z S1, fillOf k z S2, S1.length, S2.length)
+    = (fillOf k z (S1 ++ L.flatMap fun i => List.replicate (inv i) i), fillOf k z (S2 ++ L.flatMap fun i => List.replicate (outv i) i),
+        (S1 ++ L.flatMap fun i => List.replicate (inv i) i).length, (S2 ++ L.flatMap fun i => List.replicate (outv i) i).length) := by
+  intro L
+  induction L with
+  | nil => intro S1 S2; simp
+  | cons i L ih =>
+    intro S1 S2
+    simp only [List.foldl_cons, sliceSet_fill]
+    have h1 : S1.length + inv i = (S1 ++ List.replicate (inv i) i).length := by simp
+    have h2 : S2.length + outv i = (S2 ++ List.replicate (outv i) i).length := by simp
+    rw [h1, h2, ih]
+    simp only [List.flatMap_cons, List.append_assoc]
+
+theorem fillI_eq (inv outv : Fin n → ℕ) : fillI refDf inv outv k = (fitTo k (stubs inv), fitTo k (stubs outv)) := by
+  by_cases hn : 0 < n
+  · have hz : zerosL n k = fillOf k (⟨0, hn⟩ : Fin n) [] := by simp [zerosL, hn, fillOf]
+    have h0 : refDf.iIn0 = ([] : List (Fin n)).length := rfl
+    have h0' : refDf.iOut0 = ([] : List (Fin n)).length := rfl
+    simp only [fillI, hz]
+    rw [h0, h0', fill_fold]
+    simp [fitTo, stubs, hn, fillOf]
+  · have : n = 0 := by omega
+    subst this
+    simp [fillI, zerosL, fitTo, stubs]
+
+/-- **`makerandCIJdegreesfixed` is `Synth.degreesFixed`.** -/
+theorem link_degreesfixed (ir : DfIR) (hok : dfOk ir = true) (inv outv : Fin n → ℕ) (ds : List ℕ) :
+    runDf ir inv outv ds = degreesFixed inv outv ds := by
+  have hir : ir = refDf := by simpa [dfOk] using hok
+  subst hir
+  have hco : refDf.coherent = true := by decide
+  simp only [runDf, degreesFixed, hco, if_true, fillI_eq]
+  split
+  · rfl
+  · split
+    · rfl
+    · cases h0 : toVec (List.map inv (List.finRange n)).sum (fitTo (List.map inv (List.finRange n)).sum (stubs outv)) with
+      | none => rfl
+      | some e0 =>
+        cases h1 : toVec (List.map inv (List.finRange n)).sum
+            (List.filterMap (fun x => (fitTo (List.map inv (List.finRange n)).sum (stubs inv))[x]?) (List.take (List.map inv (List.finRange n)).sum ds)) with
+        | none => rfl
+        | some e1 =>
+          simp only []
+          have h := placeAll_spec e0 (List.finRange _) { C := eye n, e1 := e1 } none (ds.drop (List.map inv (List.finRange n)).sum)
+          have hemb : (embDf e0 { C := eye n, e1 := e1 } none : ESt n _) = { C := eye n, e0 := e0, e1 := e1, t := none } := rfl
+          rw [hemb] at h
+          revert h
+          generalize placeAllI refDf _ _ _ = a
+          generalize placeAll e0 _ _ _ = b
+          intro h
+          cases a with
+          | error e => cases b with
+            | error e' => simp only [RelDf] at h; subst h; rfl
+            | ok r => exact absurd h (by simp [RelDf])
+          | ok r => cases b with
+            | error e' => exact absurd h (by simp [RelDf])
+            | ok r' =>
+              obtain ⟨a, ds1⟩ := r
+              obtain ⟨b, ds2⟩ := r'
+              obtain ⟨hds, t', ha⟩ := h
+              subst hds; subst ha
+              rfl
+
+example : dfOk refDf = true := by decide
+/-- `if i < switch:` (names exchanged) is rejected -/
+example : dfOk { refDf with ltL := "i", ltR := "switch" } = false := by decide
+/-- `i_in = 1` is rejected -/
+example : dfOk { refDf with iIn0 := 1 } = false := by decide
+/-- the swap without the temporary (`edges[1, switch] = edges[1, i]` after the copy) is rejected -/
+example : dfOk { refDf with swap := [ .copyE eIs eSs, .copyE eSs eIs ] } = false := by decide
+
 example : ringOk refRing = true := by decide
 /-- `seq[count - 1] + 2` in the second `np.triu` is rejected -/
 example : ringOk { refRing with d1b := { refRing.d1b with plus := 2 } } = false := by decide
